@@ -7,6 +7,10 @@ Injection modes: the same executions through the evaluators / providers / resolv
   cer        evaluator_factory.create_content_evaluation_result_based_evaluators(): the four ContentEvaluationResultBased*
              classes, created once; the (dumped) content evaluation result travels in the EvaluatableData body, which the
              injected provider reads from a ContextVar at call time
+  cer-shared the same, but the injected provider hands out ONE long-lived EvaluatableData object whose body is replaced before
+             every execution (a provider is free to do that; nothing in the documentation asks for a fresh object per call)
+  jsonfile   user-style method based RC / FC evaluators plus the library's JsonFileHintsProvider and JsonFilePackageResolver
+             reading files written for this execution (package file alternately as dictionary and as list of mappings)
   methods    user-style evaluators: RcEvaluator / FcEvaluator subclasses with real evaluate_<key> methods that read
              PER-INSTANCE state; a new instance of the same classes is created and injected per execution
 """
@@ -24,11 +28,12 @@ from ahbicht.content_evaluation.evaluator_factory import (  # noqa: E402
 from ahbicht.content_evaluation.fc_evaluators import FcEvaluator  # noqa: E402
 from ahbicht.content_evaluation.rc_evaluators import RcEvaluator  # noqa: E402
 from ahbicht.content_evaluation.token_logic_provider import SingletonTokenLogicProvider, TokenLogicProvider  # noqa: E402
-from ahbicht.expressions.hints_provider import DictBasedHintsProvider  # noqa: E402
-from ahbicht.expressions.package_expansion import DictBasedPackageResolver  # noqa: E402
+from ahbicht.expressions.hints_provider import DictBasedHintsProvider, JsonFileHintsProvider  # noqa: E402
+from ahbicht.expressions.package_expansion import DictBasedPackageResolver, JsonFilePackageResolver  # noqa: E402
 from ahbicht.models.content_evaluation_result import ContentEvaluationResult, ContentEvaluationResultSchema  # noqa: E402
 
-MODES = ("hardcoded", "cer", "methods")
+MODES = ("hardcoded", "cer", "methods", "cer-shared", "jsonfile")
+_SHARED_DATA = None
 _BODY = contextvars.ContextVar("verif_cer_body", default=None)
 _cer_evaluators = None
 _method_classes = {}
@@ -111,12 +116,37 @@ def run(mode, make_coro, rc=None, fc=None, hints=None, packages=None):
             return I.run(make_coro(), I.Env())
 
         return ctx.run(go)
-    if mode == "methods":
+    if mode == "cer-shared":
+        global _SHARED_DATA
+        if _cer_evaluators is None:
+            _cer_evaluators = create_content_evaluation_result_based_evaluators(I.FMT, I.FMTV)
+        if _SHARED_DATA is None:
+            _SHARED_DATA = EvaluatableData(body=None, edifact_format=I.FMT, edifact_format_version=I.FMTV)
+        _configure(_cer_evaluators, lambda: _SHARED_DATA)
+        _SHARED_DATA.body = ContentEvaluationResultSchema().dump(make_cer(rc, fc, hints, packages or {}))
+        return I.run(make_coro(), I.Env())
+    if mode in ("methods", "jsonfile"):
         rc_cls, fc_cls = _method_based(list((rc or {}).keys()), list((fc or {}).keys()))
-        hp = DictBasedHintsProvider(dict(hints or {}))
-        pr = DictBasedPackageResolver(dict(packages or {}))
-        for x in (hp, pr):
-            x.edifact_format, x.edifact_format_version = I.FMT, I.FMTV
+        if mode == "jsonfile":
+            import json
+            import os
+            import pathlib
+            import tempfile
+
+            with tempfile.TemporaryDirectory(prefix="verif-jsonfile-") as d:
+                hp_path, pk_path = pathlib.Path(d) / "hints.json", pathlib.Path(d) / "packages.json"
+                hp_path.write_text(json.dumps(dict(hints or {})), encoding="utf-8")
+                table = dict(packages or {})
+                as_list = len(json.dumps(table)) % 2 == 1
+                pk_path.write_text(json.dumps([{"package_key": k, "package_expression": v, "edifact_format": I.FMT.name}
+                                               for k, v in table.items()] if as_list and table else table), encoding="utf-8")
+                hp = JsonFileHintsProvider(I.FMT, I.FMTV, hp_path)
+                pr = JsonFilePackageResolver(I.FMT, I.FMTV, pk_path)
+        else:
+            hp = DictBasedHintsProvider(dict(hints or {}))
+            pr = DictBasedPackageResolver(dict(packages or {}))
+            for x in (hp, pr):
+                x.edifact_format, x.edifact_format_version = I.FMT, I.FMTV
         _configure([rc_cls(dict(rc or {})), fc_cls(dict(fc or {})), hp, pr],
                    lambda: EvaluatableData(body=None, edifact_format=I.FMT, edifact_format_version=I.FMTV))
         return I.run(make_coro(), I.Env())
